@@ -146,6 +146,18 @@ def putRange : List VCell → Nat → List VCell → List VCell
   | xs, _, [] => xs
   | xs, at_, v :: vals => putRange (if at_ < xs.length then xs.set at_ v else xs) (at_ + 1) vals
 
+/-- `(Some(x), _) if x > n` -/
+def optExceeds (o : Option Nat) (n : Nat) : Bool :=
+  match o with
+  | some x => decide (x > n)
+  | none => false
+
+/-- `(Some(start), Some(end)) if start > end` -/
+def optInverted (a b : Option Nat) : Bool :=
+  match a, b with
+  | some x, some y => decide (x > y)
+  | _, _ => false
+
 def vectorCopyBang (s : Store) (args : List VCell) : Res :=
   match args with
   | [to, at_, from_] => go to at_ from_ none none
@@ -163,10 +175,9 @@ where
     let fxs ← s.vecGet fid
     let txs ← s.vecGet tid
     if at' > txs.length then .err .vindex
-    else if (match start with | some st => decide (st > fxs.length) | none => false) then .err .vindex
-    else if (match end_ with | some en => decide (en > fxs.length) | none => false) then .err .vindex
-    else if (match start, end_ with | some st, some en => decide (st > en) | _, _ => false) then
-      .err .syntax
+    else if optExceeds start fxs.length then .err .vindex
+    else if optExceeds end_ fxs.length then .err .vindex
+    else if optInverted start end_ then .err .syntax
     else do
       let st := start.getD 0
       let en := end_.getD fxs.length
